@@ -334,6 +334,62 @@ def wrap_mech(mech, spec):
     return red
 
 
+def check_cov_names(pm, names, default_names, step, world):
+    """
+    Behavioural meaning of the covariate entries of a covariate population
+    model over a Gaussian / log-normal model: with the same seed, changing
+    entry k moves the samples of exactly one dimension, by a constant
+    (location parameter) or not (scale parameter); the name of entry k must
+    mention that dimension and, with default names, that parameter.
+    """
+    import chi
+    inner = pm._population_model
+    log = isinstance(inner, chi.LogNormalModel)
+    if not (log or type(inner) is chi.GaussianModel):
+        return
+    n_dim, n_cov = pm.n_dim(), pm.n_covariates()
+    n_pop = len(inner.get_parameter_names())
+    n = pm.n_parameters()
+    if n_pop != 2 * n_dim or n <= n_pop:
+        return
+    base = np.array([0.5] * n_dim + [0.3] * n_dim + [0.0] * (n - n_pop))
+    cov = np.ones(n_cov)
+    s0 = call(pm.sample, base, cov, 5, 11)
+    if is_exc(s0):
+        return
+    s0 = np.log(s0) if log else np.asarray(s0)
+    dims = list(pm.get_dim_names())
+    kinds = inner.get_parameter_names(exclude_dim_names=True)
+    for k in range(n_pop, n):
+        p = base.copy()
+        p[k] = 0.25
+        s1 = call(pm.sample, p, cov, 5, 11)
+        if is_exc(s1):
+            return
+        s1 = np.log(s1) if log else np.asarray(s1)
+        moved = [d for d in range(n_dim)
+                 if not np.allclose(s0[:, d], s1[:, d], rtol=1e-12, atol=0)]
+        if not moved:
+            # (a non-centred model samples its standardised variable: the
+            # population parameters do not show in the samples)
+            return
+        if len(moved) != 1:
+            fail('pop.name_order', 'entry_moves_several_dimensions',
+                 'entry %d (%s) moves the samples of dimensions %s' % (
+                     k, names[k], moved), step)
+        d = moved[0]
+        diff = s1[:, d] - s0[:, d]
+        location = np.allclose(diff, diff[0], rtol=1e-9, atol=1e-12)
+        want_kind = kinds[0 if location else n_dim]
+        if dims[d] not in names[k] or (
+                default_names and not names[k].startswith(want_kind)):
+            fail('pop.name_order', 'name_does_not_describe_entry',
+                 'entry %d is called %r but acts on the %s of dimension %r '
+                 '(all names: %s)' % (k, names[k], want_kind, dims[d],
+                                      names), step)
+    world.probe('covariate_entry_names_verified')
+
+
 def toy_n(spec, n_mech):
     """One more parameter when the user keeps one fixed (free count as asked)."""
     return n_mech + 1 if spec.get('mech_wrap') == 'fixed' else n_mech
@@ -462,25 +518,16 @@ def run(scenario, world):
             n_pop = len(pm._population_model.get_parameter_names()) \
                 // pm.n_dim()
             pairs = [[p % n_pop, d % pm.n_dim()] for p, d in op['pairs']]
-            twin = copy.deepcopy(pm)
             r = call(pm.set_population_parameters, pairs)
             if is_exc(r):
                 fail('op.set_population_parameters', 'raises',
                      'pairs %s: %r\n%s' % (pairs, r, r.tb), step)
             if len(pairs) > 1:
                 world.probe('multi_pair_selection')
-            # the names describe the selection (a set of pairs), in the
-            # order of the parameter vector: listing the same pairs in
-            # another order, or re-stating the current dimension names, must
-            # not move a name to another entry
-            canon = sorted(set(tuple(x) for x in pairs))
-            r = call(twin.set_population_parameters, [list(x) for x in canon])
+            # the name of a covariate entry describes the population
+            # parameter that entry acts on
             names = list(pm.get_parameter_names())
-            if not is_exc(r) and list(twin.get_parameter_names()) != names:
-                fail('pop.name_order', 'depends_on_listing_order',
-                     'pairs %s give %s, the same pairs listed as %s give %s'
-                     % (pairs, names, canon, twin.get_parameter_names()),
-                     step)
+            check_cov_names(pm, names, default_names, step, world)
             r = call(pm.set_dim_names, list(pm.get_dim_names()))
             if not is_exc(r) and list(pm.get_parameter_names()) != names:
                 fail('pop.name_order', 'restating_dim_names_moves_names',
@@ -513,18 +560,40 @@ def run(scenario, world):
                 if ll0.n_parameters() != pm.n_dim():
                     continue
             lls = []
+            labels = op.get('labels')
             for i in range(kk):
                 ll, mech, errs = bl(llspec, n_mech)
-                ll.set_id('ind %d' % (i + 1))
+                if labels is None:
+                    ll.set_id('ind %d' % (i + 1))
+                elif labels == 'mixed' and i == 0:
+                    # the user's label happens to look like a default one
+                    ll.set_id('Log-likelihood 2')
                 lls.append(ll)
             kw = {}
             if pm.n_covariates():
                 kw['covariates'] = np.array(
                     [[cov_vals[(i + j) % len(cov_vals)]
                       for j in range(pm.n_covariates())] for i in range(kk)])
+            if labels == 'reuse' and kk >= 2:
+                # likelihoods labelled by an earlier hierarchical likelihood
+                # are used again next to a new, unlabelled one
+                call(chi.HierarchicalLogLikelihood, lls, copy.deepcopy(pm),
+                     **kw)
+                ll, mech, errs = bl(llspec, n_mech)
+                lls = lls[1:] + [ll]
             hl = call(chi.HierarchicalLogLikelihood, lls, pm, **kw)
             if is_exc(hl):
+                if labels in ('mixed', 'reuse') and hl.type == 'ValueError' \
+                        and 'unique' in hl.msg:
+                    # refusing colliding labels is fine (giving two
+                    # individuals one label is not)
+                    world.probe('colliding_labels_refused')
+                    # (the refused constructor may already have told the
+                    # population model the new number of individuals)
+                    call(pm.set_n_ids, cur_k)
+                    continue
                 if ok_exc(hl):
+                    call(pm.set_n_ids, cur_k)
                     continue
                 fail('op.compose_hier', 'raises', '%r\n%s' % (hl, hl.tb),
                      step)
@@ -794,7 +863,10 @@ def run(scenario, world):
                 kw['covariates'] = [cov_vals[j % len(cov_vals)]
                                     for j in range(pm.n_covariates())]
             if _has_hetero_obj(pmc):
-                pmc.set_n_ids(ns)
+                r = call(pmc.set_n_ids, ns)
+                if is_exc(r):
+                    fail('op.set_n_ids', 'raises', '%r\n%s' % (r, r.tb),
+                         step)
                 n_top = pmc.n_parameters() + (0 if op.get('sigma') else n_out)
             if n_top < 1:
                 continue
@@ -1052,6 +1124,8 @@ def _generate(rng, index, tier):
             op['front'] = rng.random() < 0.5
         elif o in ('compose_hier', 'compose_controller'):
             op['n_ids'] = rng.randint(1, 4)
+            if o == 'compose_hier' and rng.random() < 0.3:
+                op['labels'] = rng.choice(['none', 'mixed', 'reuse'])
         elif o == 'compose_ll':
             if rng.random() < 0.7:
                 op['fix'] = [rng.randint(0, 40)
